@@ -28,6 +28,9 @@ AsDouble(v) ==
   ELSE BNRoundToDouble(v.n)            \* int64 -> float64 conversion rounds
 
 NumCmp(l, r) == BNCmp(l.n, r.n)
+(* the value a number item computes with: exact for integers, the float64   *)
+(* for everything else                                                      *)
+AsValue(v) == IF IsIntRep(v) THEN v.n ELSE AsDouble(v)
 
 (* A float64 result from an exact value: overflow is an error.              *)
 FloatOf(x) ==
